@@ -1810,7 +1810,9 @@ def normalize_discovery_date(value: Any) -> datetime.datetime:
     if not isinstance(value, datetime.datetime):
         raise TypeError("discovery_date must be a timezone-aware datetime.")
 
-    if value.tzinfo is None:
+    if value.tzinfo is None or value.utcoffset() is None:
+        # a tzinfo that gives no offset makes the datetime naive, too:
+        # astimezone() would read it in the local timezone of the process
         raise ValueError("discovery_date must be a timezone-aware datetime.")
 
     # Normalize timezone to utc, and truncate microseconds to 0
